@@ -195,7 +195,87 @@ pub fn size_sweep<B: StarkField, E: FieldElement<BaseField = B>>(name: &str, log
     }
 }
 
+/// conc build: the sizes that take the concurrent FFT paths, under every thread count and every
+/// single-region deviation of the controlled scheduler (engine E3); same oracle (naive DFT)
+#[cfg(feature = "conc")]
+fn run_conc(args: &Args) -> ! {
+    let mut report = Report::new(args, "exploration");
+    let thorough = args.tier == mck::Tier::Thorough;
+    type B64 = f64::BaseElement;
+    type B128 = f128::BaseElement;
+    let logs: Vec<u32> = if thorough { vec![9, 10, 11, 12] } else { vec![10, 11] };
+    let ts_all = [1usize, 2, 3, 4, 5, 8, 16];
+    let ts_dev: Vec<usize> = if thorough { vec![2, 4, 8] } else { vec![2, 4] };
+    let naive_cap: usize = 1 << 26;
+    fn one<B: StarkField, E: FieldElement<BaseField = B>>(name: &str, l: u32, cap: usize, ts_all: &[usize], ts_dev: &[usize]) -> (Sweep, rayon::ExploreStats) {
+        // the naive expectations are computed once; every schedule re-runs only the FFT calls
+        let _ = cap;
+        let n = 1usize << l;
+        let tw = fft::get_twiddles::<B>(n);
+        let itw = fft::get_inv_twiddles::<B>(n);
+        let polys: Vec<Vec<E>> = vec![coeffs::<E>(n, &Coeffs::Unit(1)), coeffs::<E>(n, &Coeffs::Unit(n - 1)), coeffs::<E>(n, &Coeffs::Counter)];
+        let off = B::GENERATOR;
+        let plain: Vec<Vec<E>> = polys.iter().map(|p| naive_eval(p, &domain::<B>(n, B::ONE))).collect();
+        let blown: Vec<Vec<Vec<E>>> = polys.iter().map(|p| [2usize, 8].iter().map(|b| naive_eval(p, &domain::<B>(n * b, off))).collect()).collect();
+        let shifted: Vec<Vec<E>> = polys.iter().map(|p| naive_eval(p, &domain::<B>(n, off))).collect();
+        let mut s = Sweep::new();
+        let st = rayon::explore(ts_all, ts_dev, 0, |tag| {
+            for (k, p) in polys.iter().enumerate() {
+                let key = format!("{name}/n={n}/poly={k} [{tag}]");
+                let mut chk = |what: &str, got: Result<Vec<E>, mck::Panicked>, want: &Vec<E>, s: &mut Sweep| {
+                    s.evals += 1;
+                    s.nontrivial += 1;
+                    match got {
+                        Err(pn) => s.fail(format!("panic:{name}:{what}:{}", pn.location), key.clone(), format!("{name} {what} panicked at {} ({}) for {key}", pn.location, pn.message)),
+                        Ok(g) if &g != want => s.fail(format!("wrong:{name}:{what}:concurrent"), key.clone(), format!("{name} {what} differs from the naive evaluation for {key}")),
+                        _ => {},
+                    }
+                };
+                chk("evaluate_poly", mck::catch(|| { let mut v = p.clone(); fft::evaluate_poly(&mut v, &tw); v }), &plain[k], &mut s);
+                for (bi, b) in [2usize, 8].iter().enumerate() {
+                    chk("evaluate_poly_with_offset", mck::catch(|| fft::evaluate_poly_with_offset(p, &tw, off, *b)), &blown[k][bi], &mut s);
+                }
+                chk("interpolate_poly", mck::catch(|| { let mut v = plain[k].clone(); fft::interpolate_poly(&mut v, &itw); v }), p, &mut s);
+                chk("interpolate_poly_with_offset", mck::catch(|| { let mut v = shifted[k].clone(); fft::interpolate_poly_with_offset(&mut v, &itw, off); v }), p, &mut s);
+            }
+        });
+        (s, st)
+    }
+    let jobs: Vec<(usize, u32)> = (0..3).flat_map(|k| logs.iter().map(move |l| (k, *l))).collect();
+    let outs = mck::par_map(jobs.len(), |j| match jobs[j].0 {
+        0 => one::<B64, B64>("f64", jobs[j].1, naive_cap, &ts_all, &ts_dev),
+        1 => one::<B128, B128>("f128", jobs[j].1, naive_cap, &ts_all, &ts_dev),
+        _ => one::<B64, QuadExtension<B64>>("f64^2", jobs[j].1, naive_cap, &ts_all, &ts_dev),
+    });
+    let (mut evals, mut sched, mut nontrivial, mut tasks) = (0, 0, 0, 0);
+    let mut regions = vec![];
+    for ((k, l), (s, st)) in jobs.iter().zip(outs) {
+        evals += s.evals;
+        sched += st.schedules;
+        nontrivial += st.nontrivial;
+        tasks += st.task_runs;
+        if *k == 0 {
+            regions.push(json!({"log2_size": l, "regions_(threads,total,multi)": st.regions}));
+        }
+        report.violations(s.viol);
+        for (c, n) in s.more {
+            report.count_more(&c, n);
+        }
+    }
+    report.part("conc build under the controlled scheduler: evaluate / interpolate (with offset, blowups) on sizes taking the concurrent FFT, T in {1,2,3,4,5,8,16}, every region reversed and rotated", evals, nontrivial,
+        json!({"schedules": sched, "task_executions": tasks, "regions_f64": regions}));
+    report.exhaustive = true;
+    report.bounds = json!({"log2_sizes": logs, "thread_counts": ts_all, "deviation_bound": 1});
+    report.rule = "one case per (field, size, coefficient vector, function, offset, blowup, schedule); each compares a whole output vector with the naive DFT".into();
+    report.assumptions = vec!["tasks are atomic (no scheduling point inside a task)".into()];
+    report.finish(args)
+}
+
 pub fn run(args: &Args) {
+    #[cfg(feature = "conc")]
+    if args.variant.starts_with("conc") {
+        run_conc(args);
+    }
     let mut report = Report::new(args, "exploration");
     let thorough = args.tier == mck::Tier::Thorough;
     let max_log = if thorough { 12 } else { 10 };
